@@ -140,6 +140,11 @@ func LoadContentsFromFile(ctx context.Context, tx *Transaction, fpath parser.Ide
 		return content, NewFileNotExistError(fpath)
 	}
 
+	// The file container admits one handler per path: statements that load the same file from
+	// several goroutines (SOURCE in a function called from a query) take turns.
+	tx.viewLoadingMutex.Lock()
+	defer tx.viewLoadingMutex.Unlock()
+
 	h, err := tx.FileContainer.CreateHandlerWithoutLock(ctx, p, tx.WaitTimeout, tx.RetryDelay)
 	if err != nil {
 		return content, ConvertFileHandlerError(err, fpath)
